@@ -65,6 +65,46 @@ pub fn head_menu_inputs(format: Format) -> Vec<Vec<u8>> {
     out
 }
 
+/// FASTQ: every header of the menu on a record with every kind of defect (the error carries the id)
+pub fn head_menu_defect_inputs() -> Vec<Vec<u8>> {
+    let mut out = vec![];
+    for head in HEAD_MENU {
+        for nl in ["\n", "\r\n"] {
+            // (lines after the header line, final terminator present)
+            let bodies: [(&[&str], bool); 7] = [
+                (&["AC", "-", "IJ"], true),
+                (&["AC", "+", "I"], true),
+                (&["AC", "+", "IJK"], false),
+                (&[], true),
+                (&["AC"], false),
+                (&["AC"], true),
+                (&["AC", "+"], true),
+            ];
+            for (lines, fin) in bodies {
+                for lead in [false, true] {
+                    let mut d: Vec<u8> = vec![];
+                    if lead {
+                        d.extend_from_slice(format!("@p q{nl}AC{nl}+{nl}IJ{nl}", nl = nl).as_bytes());
+                    }
+                    d.push(b'@');
+                    d.extend_from_slice(head);
+                    d.extend_from_slice(nl.as_bytes());
+                    for (i, l) in lines.iter().enumerate() {
+                        d.extend_from_slice(l.as_bytes());
+                        if i + 1 < lines.len() || fin {
+                            d.extend_from_slice(nl.as_bytes());
+                        }
+                    }
+                    out.push(d);
+                }
+            }
+        }
+    }
+    out.sort();
+    out.dedup();
+    out
+}
+
 impl Family {
     pub fn count(&self) -> u64 {
         match self {
@@ -134,6 +174,10 @@ pub fn families(format: Format, tier: Tier) -> Vec<Family> {
         Family::Recs(recs),
         Family::Recs(long_files(format, true)),
         Family::Raw("header menu (spaces / CR / TAB / non-UTF-8 at every edge of id and description)", head_menu_inputs(format)),
+        Family::Raw(
+            "header menu x defect kinds (invalid separator, unequal lengths, truncation after each line)",
+            if format == Format::Fastq { head_menu_defect_inputs() } else { vec![] },
+        ),
     ]
 }
 
